@@ -128,3 +128,7 @@ Proof.
   - now inversion H; subst.
   - destruct (step s a) as [s1|] eqn:E; [|discriminate]. eapply IH; [exact H|]. eapply step_thr_key; eauto.
 Qed.
+
+(* every enabled step advances the logical clock by one *)
+Lemma step_time : forall s a s', step s a = Some s' -> s_time s' = S (s_time s).
+Proof. intros s a s' H. step_cases H; reflexivity. Qed.
